@@ -2,6 +2,7 @@ package vh
 
 import (
 	"bufio"
+	"context"
 	"encoding/json"
 	"flag"
 	"fmt"
@@ -240,6 +241,15 @@ func (r *sessRun) run(n int, seed int64) {
 	}
 	r.sess = sess
 	r.rec.Emit("SessEst", "s", r.sn, "id", sess.ID())
+	if !strict && n%2 == 1 {
+		// earlier on this session: a call that failed before anything was written (its context had been cancelled).
+		// It is over and done with; the calls of the scenario must be waited for, completed and counted as if it had
+		// never been made
+		cctx, cancel := context.WithCancel(context.Background())
+		cancel()
+		r.sess.Call(CallRoute, &Arg{Tag: "pre"}, nil, erpc.WithContext(cctx))
+		r.nseq++
+	}
 	go r.rawReader()
 	if strict {
 		if !r.g.WaitParked(r.key("read.next"), stepWait) {
